@@ -63,7 +63,7 @@ def _build():
     if _built:
         return
     _built = True
-    bp_mods = ["py_bp", "py_bp_struct", "gen_py"]
+    bp_mods = ["py_bp", "py_bp_struct", "gen_py", "gen_c"]
     for pr, ex in [
         ("C02", "Python decode: process_base_type (decode) proved against the bit-view invariant for unsigned and intN "
                 "accessors; sign lemmas; decode-side cursor/frame contracts of every processor class"),
@@ -73,6 +73,15 @@ def _build():
         ("C14", "leaf contracts quantified over width 1..64, offset, position and all values subsume the finite grid"),
     ]:
         add(Check(pr, bp_mods, explanation=ex))
+    for pr, ex in [
+        ("C03", "C standard mode: the generated descriptors and the REAL runtime lib/c/bitproto.c are interpreted together "
+                "(clang AST) per template; Encode == reference bytes for all storage contents, Decode == value"),
+        ("C04", "optimization mode: generated -O C for --endian both (either preprocessor branch), little, big, interpreted "
+                "per template and proved equal to the reference layout (hence to standard mode, C03)"),
+        ("C06", "big-endian: the -DBP_BIG_ENDIAN AST of runtime + generated code interpreted under a big-endian memory "
+                "model gives the same wire bytes / values as the little-endian run (same reference layout)"),
+    ]:
+        add(Check(pr, ["gen_c"], explanation=ex))
     add(Check("C01", bp_mods, explanation="Python encoder layout: contracts on bp.py (leaf bit copier with quantified "
               "bit-view invariant; cursor/frame/call-order contracts of every processor class against the abstract "
               "process contract)"))
